@@ -653,8 +653,9 @@ def _judge_ac(model, uu, fn, deep=False):
     n_cases = 0
 
     def run_case(nfree, nfixed, m, table, incoming, cands_extra=(),
-                 other_kind="Sum"):
-        """table: set of (fixed index, target index) that match"""
+                 other_kind="Sum", identical=False):
+        """table: set of (fixed index, target index) that match;
+        identical: the target *is* the pattern (expr == other holds)"""
         free = [var(f"x{i}") for i in range(nfree)]
         fixed = [Obj("Fixed", {"i": i}) for i in range(nfixed)]
         # pattern children interleaved: fixed first, then free, then a fixed
@@ -662,6 +663,8 @@ def _judge_ac(model, uu, fn, deep=False):
         targets = tuple(f"t{j}" for j in range(m))
         expr = Obj("AC", {"kind": "Sum", "children": kids})
         other = Obj("AC", {"kind": other_kind, "children": targets})
+        if identical:
+            targets, other = kids, expr
         me = Obj("unifier", {
             "lhs_mapping_candidates": {v.fields["name"] for v in free}
             | set(cands_extra),
@@ -753,10 +756,11 @@ def _judge_ac(model, uu, fn, deep=False):
                                "of target children")
                     return
                 used.extend(val.items)
-            if sorted(used) != sorted(targets):
+            if sorted(used, key=repr) != sorted(targets, key=repr):
                 wit.append(f"{label}: a record accounts for the target children "
-                           f"{sorted(used)}: instantiating the pattern does not "
-                           f"give back the target's {sorted(targets)}")
+                           f"{sorted(used, key=repr)}: instantiating the pattern "
+                           "does not give back the target's "
+                           f"{sorted(targets, key=repr)}")
                 return
             extra = set(lmap) - {f"@{i}" for i in range(nfixed)} - {
                 v.fields["name"] for v in free}
@@ -810,6 +814,20 @@ def _judge_ac(model, uu, fn, deep=False):
         run_case(1, 1, m + 1, {(0, 0)}, [[("x0", FVal(("t0", "zz")))]])
         run_case(1, 1, m + 1, {(0, 0), (0, 1)},
                  [[("x0", FVal(f"t{j}" for j in range(1, m + 1)))]])
+    # several incoming records and no free variable among the children: what
+    # came in must still be in what goes out (each result continues one of the
+    # incoming records)
+    n_cases += 3
+    two = [[("w", "a")], [("w", "b")]]
+    run_case(0, 1, 1, {(0, 0)}, two)
+    run_case(0, 2, 2, {(0, 0), (1, 1)}, two)
+    run_case(1, 1, 2, {(0, 0)}, two)
+    # the target is literally the pattern, but matching a child against itself
+    # binds what is *inside* it (f(x) against f(x) needs x = x): an incoming
+    # record that has bound that otherwise rules the match out
+    n_cases += 2
+    run_case(0, 1, 1, {(0, 0)}, [[("@0", "elsewhere")]], identical=True)
+    run_case(0, 2, 2, {(0, 0), (1, 1)}, [[("@1", "elsewhere")]], identical=True)
     # a target of another class is no match
     n_cases += 1
     run_case(1, 1, 2, {(0, 0)}, [[]], other_kind="Product")
